@@ -148,11 +148,17 @@ window inside ±1280 cB), for a burst of `len` octets with attenuation `pwr` fro
 RSSI −120..−47 dBm, ToA256 a signed 16-bit value, burst length 148 or 444, a known header version -/
 def RadioOk (s r : Trx) (pwr : Option Int) (len : Nat) : Prop :=
   (r.hdrVer = 0 ∨ r.hdrVer = 1) ∧ (len = 148 ∨ len = 444) ∧
-  (r.fakeRssi = false → ∃ a, pwr = some a ∧
-      -120 ≤ s.txPowerBase - s.txAttBase - a - 110 ∧ s.txPowerBase - s.txAttBase - a - 110 ≤ -47) ∧
+  (r.fakeRssi = false →
+    match pwr with
+    | some a => -120 ≤ s.txPowerBase - s.txAttBase - a - 110 ∧ s.txPowerBase - s.txAttBase - a - 110 ≤ -47
+    | none => False) ∧
   (r.fakeRssi = true → -120 ≤ r.rssiBase - r.rssiThr ∧ r.rssiBase + r.rssiThr ≤ -47) ∧
   -32768 ≤ r.toaBase - r.toaThr - 256 * s.ta ∧ r.toaBase + r.toaThr - 256 * s.ta ≤ 32767 ∧
   (r.hdrVer = 1 → -1280 ≤ r.ciBase - r.ciThr ∧ r.ciBase + r.ciThr ≤ 1280)
+
+instance (s r : Trx) (pwr : Option Int) (len : Nat) : Decidable (RadioOk s r pwr len) := by
+  unfold RadioOk
+  cases pwr <;> infer_instance
 
 /-! ### C10: training sequences (TS 45.002 §5.2) -/
 
